@@ -124,6 +124,17 @@ func (wb *WriteBuffer) GetEntriesAndClear() []Entry {
 	return entries
 }
 
+// Restore puts entries back in front of the buffer. It is used when the block they
+// were flushed into could not be written: they must not be lost.
+func (wb *WriteBuffer) Restore(entries []Entry) {
+	wb.mu.Lock()
+	defer wb.mu.Unlock()
+	wb.entries = append(entries, wb.entries...)
+	for _, e := range entries {
+		wb.currentSize += e.Size()
+	}
+}
+
 // serializeEntries converts all entries to a single byte slice
 func (wb *WriteBuffer) serializeEntries() []byte {
 	var buf bytes.Buffer
